@@ -91,7 +91,7 @@ def main() -> int:
     for meta_path in sorted((HERE / "seeded").glob("*/meta.json")):
         meta = json.loads(meta_path.read_text())
         for cb in meta.get("caught_by", []):
-            for m in re.finditer(r"\b(C\d\d)-(R\w+)", cb.split(" - ")[0]):
+            for m in re.finditer(r"\b(C\d\d)-((?:C\d\d\.)?R\w+)", cb.split(" - ")[0]):
                 VARIANTS.append({"prop": m.group(1), "id": f"{m.group(1)}:seed-{meta_path.parent.name}", "expect": "F",
                                  "rule": m.group(2), "edits": [], "patchfile": str(meta_path.parent / "patch.diff")})
 
